@@ -139,6 +139,11 @@ func TestChain(t *testing.T) {
 		if rapid.IntRange(0, 4).Draw(t, "large") == 0 { // long chains, mostly one kind of slot, many ties (sorting algorithms change behaviour with size)
 			n = rapid.IntRange(13, 45).Draw(t, "nLarge")
 			favour = rapid.IntRange(0, 2).Draw(t, "favour")
+			if rapid.IntRange(0, 3).Draw(t, "huge") == 0 { // chains beyond any machine-word-sized bookkeeping (64 slots of one kind and more)
+				n = rapid.IntRange(66, 140).Draw(t, "nHuge")
+				favour = rapid.SampledFrom([]int{2, 2, 0, 1}).Draw(t, "favourHuge")
+				c.Class("more-than-65-slots")
+			}
 		}
 		for i := 0; i < n; i++ {
 			kind := rapid.IntRange(0, 2).Draw(t, "kind")
@@ -186,10 +191,19 @@ func TestChain(t *testing.T) {
 				switch s.kind {
 				case 0:
 					row[i] = rapid.SampledFrom([]int{bOK, bOK, bOK, bOK, bPanic}).Draw(t, "beh")
+					if n > 65 && rapid.IntRange(0, 39).Draw(t, "rarePanic") != 0 {
+						row[i] = bOK
+					}
 				case 1:
 					row[i] = rapid.SampledFrom([]int{bOK, bOK, bPassResult, bShouldWait, bBlockNew, bBlockPooled, bPanic}).Draw(t, "beh")
+					if n > 65 && rapid.IntRange(0, 39).Draw(t, "rareBlock") != 0 {
+						row[i] = bOK
+					}
 				case 2:
 					row[i] = rapid.SampledFrom([]int{bOK, bOK, bOK, bOK, bPanicPassed, bPanicBlocked, bPanicCompleted}).Draw(t, "beh")
+					if n > 65 && rapid.IntRange(0, 39).Draw(t, "rarePanic") != 0 {
+						row[i] = bOK // in huge chains panics are rare, so that whole walks over all the statistic slots are common
+					}
 				}
 			}
 			scen = append(scen, row)
